@@ -22,6 +22,7 @@
 // ---------------------------------------------------------------------------
 //  Includes
 // ---------------------------------------------------------------------------
+#include <limits.h>
 #include <xercesc/util/regx/RegxParser.hpp>
 #include <xercesc/util/XMLString.hpp>
 #include <xercesc/util/ParseException.hpp>
@@ -422,6 +423,9 @@ Token* RegxParser::parseFactor() {
                        && (ch = fString[fOffset++]) >= chDigit_0
                        && ch <= chDigit_9) {
 
+                    // a bound that does not fit an int is reported, not computed
+                    if (min > (INT_MAX - 9) / 10)
+                        ThrowXMLwithMemMgr1(ParseException, XMLExcepts::Parser_Quantifier5, fString, fMemoryManager);
                     min = min*10 + ch - chDigit_0;
                 }
 
@@ -446,6 +450,8 @@ Token* RegxParser::parseFactor() {
                            && (ch = fString[fOffset++]) >= chDigit_0
                            && ch <= chDigit_9) {
 
+                        if (max > (INT_MAX - 9) / 10)
+                            ThrowXMLwithMemMgr1(ParseException, XMLExcepts::Parser_Quantifier5, fString, fMemoryManager);
                         max = max*10 + ch - chDigit_0;
                     }
 
